@@ -159,11 +159,23 @@ def step (s : St) (w : List String) : St × String :=
           | .err e => (s, s!"R ret={e.name} out=-{tail m m (toString e.code)} | S {sp}")
           | x => (s, s!"R ret={resCode x} out=-{tail m m (resCode x)} | S {sp}")
         | none => (s, "bad-op")
-      | "append", [h] =>
-        match parseHex h with
-        | some pre =>
-          (s, s!"R ret=0 out={toHex (m.append pre)}{tail m m "0"} | S ret=0 out={toHex (Flat.append pre d)} ; {toHex d}")
-        | none => (s, "bad-op")
+      | "append", h :: flag =>
+        let failAt : Option Nat := match flag with
+          | [] => some 0
+          | [f] => if f.startsWith "nomem:" then
+              match (f.drop 6).toString.toNat? with
+              | some k => if k = 0 ∨ k > 64 then none else some k
+              | none => none
+            else none
+          | _ => none
+        match failAt, parseHex h with
+        | some k, some pre =>
+          let r := m.appendSched pre k
+          let okAlt := s!"ret=0 out={toHex (Flat.append pre d)} ; {toHex d}"
+          let sp := if k = 0 then okAlt else okAlt ++ s!" || ret=MissingBuffer out={toHex pre} ; {toHex d}"
+          let rt := if r.ret < 0 then "MissingBuffer" else toString r.ret
+          (s, s!"R ret={rt} out={toHex r.out}{tail m m s!"{r.ret} allocs={r.allocs}"} | S {sp}")
+        | _, _ => (s, "bad-op")
       | _, _ => (s, "bad-op")
   | _ => (s, "bad-op")
 
